@@ -230,7 +230,7 @@ bag_count.__pyvc_native__ = True
 # ------------------------------------------------------------------ NumPy on row collections (trusted models, A3)
 @_model(_np.asarray, _np.array)
 def _asarray(interp, v, *a, **k):
-    from pyvc.models import np_asarray
+    from pyvc.models import np_asarray2 as np_asarray
     if isinstance(v, RowSet):
         return v
     return np_asarray(interp, v, *a, **k)
@@ -304,10 +304,10 @@ def _hstack(interp, parts, *a, **k):
 
 @_model(isinstance)
 def _isinstance(interp, obj, cls):
-    from pyvc.models import py_isinstance
+    from pyvc.models import py_isinstance2
     if isinstance(obj, (IntervalsIn, RowSet)):
         return isinstance(_np.zeros(0), cls)
-    return py_isinstance(interp, obj, cls)
+    return py_isinstance2(interp, obj, cls)
 
 
 # ------------------------------------------------------------------ ghost view of nodes
@@ -689,3 +689,128 @@ def bounded_trees(rng, tier):
 
 for _n in ("IntervalTree.query", "IntervalTree.query_points", "IntervalTree.__contains__"):
     REG.inline_ok.add(M + _n)
+
+
+# =============================================================================
+# FileSet.match: the glue around the tree.  find() of both filesets is a GIVEN (its contract is C01: the files of the
+# period, in time order) -- the theorem supplies 'what find returned' as lists of files with SYMBOLIC coverage; the
+# IntervalTree is replaced by the contract proved above (query: exactly the intersecting stored intervals, each once).
+# =============================================================================
+from datetime import datetime as _datetime, timedelta as _timedelta      # noqa: E402
+from typhon.files.fileset import FileSet as _FileSet                     # noqa: E402
+from typhon.files.handlers.common import FileInfo as _FileInfo           # noqa: E402
+import contracts.C02 as _c02                                             # noqa: E402
+from pyvc import timesym as _ts                                          # noqa: E402
+
+REG.inline_ok.add("typhon.files.fileset:FileSet.match")
+REG.inline_ok.add("typhon.utils.timeutils:to_timedelta")
+REG.inline_ok.add("typhon.utils.timeutils:to_datetime")
+for _n in ("FileInfo.__init__", "FileInfo.path", "FileInfo.times"):
+    REG.inline_ok.add("typhon.files.handlers.common:" + _n)
+_dtk = _c02._fresh_dt
+
+
+class ListedFileSet(_FileSet):
+    """a FileSet whose find() returns a given list (the assumed result of the real find, C01)"""
+
+    def find(self, start=None, end=None, **kwargs):
+        self.find_calls.append((start, end))
+        return iter(self.listed)
+
+
+ListedFileSet.find.__pyvc_thm__ = True
+
+
+class GhostTree:
+    """IntervalTree by its contract (theorem thm/C03/query): query(q) returns for each query interval the indices of exactly
+    the stored closed intervals that intersect it, each once.  The membership of every index is decided by forking."""
+    __pyvc_symbolic__ = True
+
+    def __init__(self, intervals):
+        self.intervals = intervals
+
+    def query(self, queries):
+        ctx = _sym.ctx()
+        n = self.intervals.shape[0]
+        out = []
+        for q in queries:
+            hits = []
+            for j in range(n):
+                lo, hi = self.intervals[j, 0], self.intervals[j, 1]
+                if ctx.branch(_sym.truth((lo <= q[1]) & (hi >= q[0]))):
+                    hits.append(j)
+            # the tree returns them in no particular order: match() sorts them, so a reversed list is as good a representative
+            out.append(list(reversed(hits)))
+        return out
+
+
+@_model(IntervalTree)
+def _ghost_tree(interp, intervals):
+    if not interp.ctx.ghost.get("c03_ghost_tree"):
+        return interp.models.construct(interp, IntervalTree, [intervals], {}, None, None)      # the real class (other theorems)
+    interp.trusted_used.add("contract:IntervalTree(...).query == exactly the intersecting intervals (proved: thm/C03/query)")
+    return GhostTree(intervals)
+
+
+def _mk_files(prefix, times):
+    return [_FileInfo("/%s/f%d.nc" % (prefix, i), [a, b], {}) for i, (a, b) in enumerate(times)]
+
+
+def _us(x):
+    """a (symbolic) timedelta in microseconds"""
+    return _ts.td_us(x)
+
+
+_us.__pyvc_native__ = True
+
+
+def _usd(d):
+    """a (symbolic) datetime as its microsecond count"""
+    return _Sym(d.us())
+
+
+_usd.__pyvc_native__ = True
+
+
+def _thm_match(k1, k2, with_interval):
+    kinds = {}
+    for i in range(k1):
+        kinds["a%d" % i], kinds["b%d" % i] = _dtk("a%d" % i, 6), _dtk("b%d" % i, 6)
+    for j in range(k2):
+        kinds["c%d" % j], kinds["d%d" % j] = _dtk("c%d" % j, 6), _dtk("d%d" % j, 6)
+
+    @theorem(P, "match[%d x %d,%s]" % (k1, k2, "max_interval" if with_interval else "no max_interval"), **kinds)
+    def thm(**t):
+        ctx = _sym.ctx()
+        p_times = [(t["a%d" % i], t["b%d" % i]) for i in range(k1)]
+        s_times = [(t["c%d" % j], t["d%d" % j]) for j in range(k2)]
+        for lo, hi in p_times + s_times:
+            requires(lo <= hi, lo.year >= 1971, hi.year >= 1971, hi.year <= 2200)
+        if with_interval:
+            mi = _ts.STimedelta(ctx.fresh("max_interval_us", "int"))
+            requires(mi.total_us >= 0, mi.total_us <= 10 * 86400 * 10**6)
+        else:
+            mi = None
+        ctx.ghost["c03_ghost_tree"] = True
+        one = ListedFileSet(path="/p/{year}{month}{day}{hour}{minute}{second}.nc", name="one")
+        two = ListedFileSet(path="/s/{year}{month}{day}{hour}{minute}{second}.nc", name="two")
+        one.listed, two.listed = _mk_files("p", p_times), _mk_files("s", s_times)
+        one.find_calls, two.find_calls = [], []
+        got = list(one.match(two, _datetime(1971, 1, 1), _datetime(2200, 1, 1), max_interval=mi))
+        w = 0 if mi is None else _us(mi)
+        pos = 0
+        for i in range(k1):
+            partners = [j for j in range(k2)
+                        if (_usd(s_times[j][0]) - w <= _usd(p_times[i][1])) and (_usd(s_times[j][1]) + w >= _usd(p_times[i][0]))]
+            if partners:
+                ensures(len(got) > pos and got[pos][0] is one.listed[i], id="primary %d is yielded (it has a partner), in find() order" % i)
+                ensures(got[pos][1] == [two.listed[j] for j in partners],
+                        id="primary %d comes with exactly the files whose (widened) coverage intersects its own, in time order" % i)
+                pos += 1
+        ensures(len(got) == pos, id="primaries without partner are omitted, nothing else is yielded")
+    return thm
+
+
+for _k1, _k2 in ((1, 1), (1, 2), (2, 2)):
+    _thm_match(_k1, _k2, False)
+    _thm_match(_k1, _k2, True)
